@@ -37,12 +37,17 @@ Definition declares_bundle_out (e : event) : bool :=
 (* 0 clean; 1 struct with an array field (does not compile); 2 two declarations of bundleOut
    (does not compile; only while the proxy does not scope them: JavaFacts.java_scopes_bundle_out); 3 struct with a struct field (null member); 4 primitive array;
    5 struct array; 6 output object array *)
+(* an input array of one-byte elements is the raw slot itself (byte[]): it works; output arrays of
+   bytes share the defect of the other primitive arrays *)
+Definition is_byte_array_ok (p : mparam) : bool :=
+  negb (mp_out p) && match mp_ty p with MPrim q => mir_prim_size q =? 1 | _ => false end.
+
 Definition java_class (f : mfunc) : N :=
   let ps := mf_params f in
   if existsb (fun p => has_array_field (mp_ty p)) ps then 1
   else if negb java_scopes_bundle_out && (1 <? N.of_nat (List.length (filter declares_bundle_out (with_bundling ps)))) then 2
   else if existsb (fun p => has_struct_field (mp_ty p)) ps then 3
-  else if existsb (fun p => is_array p && is_prim (mp_ty p)) ps then 4
+  else if existsb (fun p => is_array p && is_prim (mp_ty p) && negb (is_byte_array_ok p)) ps then 4
   else if existsb (fun p => is_array p && is_mstruct (mp_ty p)) ps then 5
   else if existsb (fun p => is_array p && is_miface (mp_ty p) && mp_out p) ps then 6
   else 0.
